@@ -1,7 +1,7 @@
 (* C18 — Glyphs not flagged unsafe-to-break are safe cut points (partial: flag algebra of the buffer).
    Property theorems only.  The statement about re-shaping the pieces depends on which windows GSUB/GPOS/kern inspect
    and is explored by the cut-and-reshape sweep (go/cmd/c18sweep), not proved. *)
-From TV Require Import Model.Buffer Spec.Buffer Proofs.Buffer Proofs.BufferOps.
+From TV Require Import Model.Buffer Spec.Buffer Proofs.Buffer Proofs.BufferOps Proofs.BufferAll.
 
 (* propagateFlags on ANY buffer whose cluster values are monotone (levels other than Characters): it returns normally
    (no OutOfFuel), keeps clusters, cursor and out-buffer, and — when a flag was recorded (bsfHasGlyphFlags) — afterwards
